@@ -555,7 +555,9 @@ pub fn neg(val: &Value) -> Result<Value, Error> {
             ValueRepr::F64(x) => Ok((-x).into()),
             // special case for the largest i128 that can still be
             // represented.
-            ValueRepr::U128(x) if x.0 == MIN_I128_AS_POS_U128 => Ok(Value::from(i128::MIN)),
+            ValueRepr::U128(x) if x.0 == MIN_I128_AS_POS_U128 => {
+                Ok(Value::from(MIN_I128_AS_POS_U128))
+            }
             _ => {
                 if let Ok(x) = i128::try_from(val.clone()) {
                     x.checked_mul(-1)
